@@ -168,6 +168,102 @@ def check_runs(ctx, T, prob, replies, what, expect_sched=None, variant=1):
             ctx.coverage["samples"].append({"n_threads": tr["n"], "n_alpha": tr["m"], "policy": tr["policy"], "ops": len(tr["toks"]), "model": o})
 
 
+SIG_FACTOR = "modify_factor:update-vs-refactor-threshold-divided-by-get_nthreads"
+FIX2 = os.path.join(psvlib.VERIF, "fixes", "C12-2.diff")
+
+
+def run_sweep(ctx, exe, outname, npb, maxt, quick, gen_seed):
+    outp = os.path.join(ctx.scratch, outname)
+    rc, so, se = ctx.run([exe, outp, str(npb), str(maxt)], timeout=120 if quick else 600, env={"VERIF_SEED": str(gen_seed)})
+    lines = open(outp).read().splitlines() if os.path.exists(outp) else []
+    return rc, se, lines, [l.split() for l in lines if l.startswith("N ")]
+
+
+def build_factor_fixed(ctx):
+    """nnls sweep harness on a copy of the tree's cholesky_solve.c with fixes/C12-2.diff applied (regenerated on demand)."""
+    src = os.path.join(psvlib.REPO, "src/fitter/cholesky_solve.c")
+    d = os.path.join(ctx.scratch, "factorfixed"); os.makedirs(d, exist_ok=True)
+    dst = os.path.join(d, "cholesky_solve.c")
+    with open(src) as f: text = f.read()
+    with open(dst, "w") as f: f.write(text)
+    r = subprocess.run(["patch", "-s", "--no-backup-if-mismatch", "-F", "0", dst, FIX2], stdout=subprocess.PIPE, stderr=subprocess.STDOUT, text=True)
+    if r.returncode != 0:
+        return None, "fixes/C12-2.diff does not apply to %s: %s" % (src, r.stdout[-200:])
+    others = [c for c in psvlib.FITTER_C if not c.endswith("cholesky_solve.c")]
+    exe = ctx.compile("c12n_fixed", ["c12_nnls_harness.cpp"], mode="shipped", defines=["PHOTOSPLINE_INCLUDES_SPGLAM"], repo_cpp=[],
+                      repo_c=others + [dst], libs=psvlib.FITTER_LIBS, extra=["-I" + os.path.join(psvlib.REPO, "src/fitter")])
+    return exe, "working tree with fixes/C12-2.diff applied"
+
+
+def factor_decisions(ctx, exn, pidx, threads, gen_seed):
+    """The solver's own log (verbose) of problem pidx with 1 and with `threads` workers: the sequence of modify_factor decisions
+    (factor work, modification work, recomputed-from-scratch?).  Returns the first decision on which the two runs differ, with
+    PsV.Sync.factorUpdate evaluated by the driver on the logged numbers."""
+    import re
+    rc, so, se = ctx.run([exn, os.path.join(ctx.scratch, "nnls_verbose.out"), str(pidx + 1), str(threads)], timeout=300,
+                         env={"VERIF_SEED": str(gen_seed), "C12_VERBOSE": "1"})
+    segs, cur = {}, None
+    for l in so.splitlines():
+        m = re.match(r"=== P (\d+) T (\d+)", l)
+        if m: cur = (int(m.group(1)), int(m.group(2))); segs[cur] = []; continue
+        if cur is None: continue
+        m = re.search(r"Factor work: (-?\d+) Mod work: (-?\d+)", l)
+        if m: segs[cur].append({"fl": int(m.group(1)), "modfl": int(m.group(2)), "update": True}); continue
+        m = re.search(r"Recomputing factorization from scratch \(F\[(\d+)\], G\[(\d+)\], H1\[(\d+)\], H2\[(\d+)\]", l)
+        if m and segs[cur]: segs[cur][-1].update({"update": False, "nF": int(m.group(1)), "nH": int(m.group(3)) + int(m.group(4))})
+    a, b = segs.get((pidx, 1), []), segs.get((pidx, threads), [])
+    for i, (x, y) in enumerate(zip(a, b)):
+        if (x["fl"], x["modfl"], x["update"]) != (y["fl"], y["modfl"], y["update"]):
+            out = {"decision_index": i, "one_thread": x, "%d_threads" % threads: y}
+            if x["fl"] == y["fl"] and x["modfl"] == y["modfl"] and x["fl"] > 0 and x["modfl"] > 0:
+                known = x if not x["update"] else y          # the run that recomputed printed nF and nH1+nH2
+                q = ["F %d %d %d %d %d" % (t, known["nF"], x["fl"], x["modfl"], known["nH"]) for t in (1, threads)]
+                r = driver(ctx, q, "factor")
+                if r:
+                    model = [l.split()[-1] == "1" for l in r]
+                    out["model_factorUpdate"] = {"one_thread": model[0], "%d_threads" % threads: model[1]}
+                    if model != [x["update"], y["update"]]:
+                        ctx.tie_ok = False; ctx.broken.append({"kind": "modify_factor's logged decision differs from PsV.Sync.factorUpdate", "detail": out})
+            return out
+    return {"note": "no diverging decision found in the verbose logs", "decisions": [len(a), len(b)]}
+
+
+def sweep_and_report(ctx, exn, outname, npb, maxt, quick, gen_seed, label, quiet_sig=None):
+    rc, se, lines, ns = run_sweep(ctx, exn, outname, npb, maxt, quick, gen_seed)
+    sweep = {"solves": len(ns), "problems": npb, "threads": "1..%d" % maxt, "generator_seed": gen_seed, "all_equal_to_1_thread": all(w[4] == "1" for w in ns), "finished": bool(lines and lines[-1] == "DONE")}
+    cmd = "VERIF_SEED=%d c12_nnls_harness <out> %d %d" % (gen_seed, npb, maxt)
+    if rc == 124 or not sweep["finished"]:
+        last = ns[-1] if ns else None
+        ctx.report("real-threads:hang", {"cmd": cmd, "last_completed": last, "rc": rc, "stderr": se[-500:]},
+                   "%s: nnls_normal_block3 with real threads did not return (rc=%s) after problem/thread line %s — monotonic fit hangs" % (label, rc, last))
+    differing = [w for w in ns if w[4] != "1"]
+    if differing:
+        w = differing[0]
+        rep = {"problem_index": w[1], "n": w[2], "threads": w[3], "generator_seed": gen_seed, "cmd": cmd,
+               "differing_solves": len(differing), "differing_problems": sorted(set(x[1] for x in differing))}
+        # attribution: the same sweep on a regenerated copy of the tree in which modify_factor's update-vs-refactor threshold does not
+        # depend on get_nthreads() (= fixes/C12-2.diff applied).  If that copy gives identical coefficients for every worker count, the
+        # difference is the worker-count dependence of modify_factor (outside the hand-shake), else it is something new.
+        exf, how = build_factor_fixed(ctx)
+        sig = "real-threads:coefficients-differ"
+        if exf:
+            rc2, se2, lines2, ns2 = run_sweep(ctx, exf, "fixed_" + outname, npb, maxt, quick, gen_seed)
+            same2 = bool(ns2) and len(ns2) == len(ns) and all(x[4] == "1" for x in ns2) and lines2[-1] == "DONE"
+            rep["with_thread_independent_threshold"] = {"source": how, "solves": len(ns2), "all_equal_to_1_thread": same2}
+            sweep["with_thread_independent_threshold"] = rep["with_thread_independent_threshold"]
+            if same2: sig = SIG_FACTOR
+        else:
+            rep["with_thread_independent_threshold"] = {"unavailable": how}
+        if sig == SIG_FACTOR:
+            rep["first_diverging_decision"] = factor_decisions(ctx, exn, int(w[1]), int(w[3]), gen_seed)
+            sweep["first_diverging_decision"] = rep["first_diverging_decision"]
+        sweep["reported"] = sig
+        if sig != quiet_sig:
+            ctx.report(sig, rep, "%s: coefficients of nnls_normal_block3 with OMP_NUM_THREADS=%s differ bitwise from 1 thread (problem %s, n=%s; %d of %d solves differ)%s"
+                       % (label, w[3], w[1], w[2], len(differing), len(ns), "; with modify_factor's update-vs-refactor threshold made independent of get_nthreads() (fixes/C12-2.diff) all worker counts agree" if sig == SIG_FACTOR else ""))
+    return sweep
+
+
 def rep_(prob, tr):
     return {"problem": {k: prob[k] for k in ("pseed", "nF", "nneg")}, "n_threads": tr["n"], "n_alpha": tr["m"], "schedule": tr["sched"],
             "harness_cmds": ["P %d %d %d" % (prob["pseed"], prob["nF"], prob["nneg"]), "RUN %d sched %s" % (tr["n"], tr["sched"])]}
@@ -377,19 +473,13 @@ def run(ctx):
     if not exn:
         ctx.tie_ok = False; ctx.broken.append({"kind": "nnls sweep harness build failed"})
     elif ctx.violations == 0:
-        outp = os.path.join(ctx.scratch, "nnls.out"); npb, maxt = (8, 32) if quick else (40, 32)
-        rc, so, se = ctx.run([exn, outp, str(npb), str(maxt)], timeout=120 if quick else 600)
-        lines = open(outp).read().splitlines() if os.path.exists(outp) else []
-        ns = [l.split() for l in lines if l.startswith("N ")]
-        sweep = {"solves": len(ns), "problems": npb, "threads": "1..%d" % maxt, "all_equal_to_1_thread": all(w[4] == "1" for w in ns), "finished": bool(lines and lines[-1] == "DONE")}
-        if rc == 124 or not sweep["finished"]:
-            last = ns[-1] if ns else None
-            ctx.report("real-threads:hang", {"cmd": "VERIF_SEED=%d c12_nnls_harness <out> %d %d" % (seed, npb, maxt), "last_completed": last, "rc": rc, "stderr": se[-500:]},
-                       "nnls_normal_block3 with real threads did not return (rc=%s) after problem/thread line %s — monotonic fit hangs" % (rc, last))
-        for w in ns:
-            if w[4] != "1":
-                ctx.report("real-threads:coefficients-differ", {"problem_index": w[1], "n": w[2], "threads": w[3], "seed": seed}, "coefficients with OMP_NUM_THREADS=%s differ bitwise from 1 thread (problem %s)" % (w[3], w[1])); break
-        T.runs += len(ns)
+        npb, maxt = (8, 32) if quick else (40, 32)
+        # fixed regression instance (generator seed 2, problem 2, 1 vs 2 threads): the input on which modify_factor's thread-dependent
+        # threshold was found to change the coefficients; then the seeded sweep
+        reg = sweep_and_report(ctx, exn, "nnls_reg.out", 3, 2, quick, gen_seed=2, label="regression instance (generator seed 2)")
+        sweep = sweep_and_report(ctx, exn, "nnls.out", npb, maxt, quick, gen_seed=seed, label="seeded sweep", quiet_sig=reg.get("reported"))
+        sweep["regression_instance"] = reg
+        T.runs += sweep.get("solves", 0) + reg.get("solves", 0)
     dist["real_thread_sweep"] = sweep
     ctx.note("phase E: %s" % json.dumps(sweep))
 
@@ -408,7 +498,7 @@ def run(ctx):
         "sequentially consistent memory: data-race freedom on the trial records is proved at the protocol level (C12_no_data_race); races inside CHOLMOD's shared cholmod_common (statistics counters, 'Caution to the wind' in cholesky_solve.h) are not modelled",
         "the shim disables sched_setaffinity (CPU pinning of workers is not part of the protocol)",
         "the three straight-line pieces of floating-point code (worker body incl. calc_residual, residual comparison, copy loop) are deterministic functions of the values they read (Num.trial/lt/put); given that, schedule- and worker-count independence of x/H1/residual/feasible is proved (C12_data_*), and each worker record is compared bit for bit with the thread-free oracle's trial of the same index on every run",
-        "modify_factor's update-vs-refactor heuristic divides by get_nthreads(): a worker-count dependence outside the hand-shake, observed only through the OMP_NUM_THREADS sweep (fresh cholmod_common per solve)",
+        "modify_factor's update-vs-refactor threshold divides by get_nthreads() in the published tree: a worker-count dependence of the coefficients outside the hand-shake (finding, C12_factor_update_depends_on_worker_count, fixes/C12-2.diff); it is observed through the OMP_NUM_THREADS sweep (fresh cholmod_common per solve) and attributed by repeating the sweep with the threshold fixed",
     ]
 
 
